@@ -211,7 +211,11 @@ func computeTables(c *Ctx, r *Report, rule string, months bool) {
 	}
 	var scen []scenario
 	for _, anchor := range []float64{3, 11, 19, 27} {
-		for y := int64(1990); y < 2050; y++ {
+		y0, y1 := int64(1990), int64(2050)
+		if c.Tier == "thorough" {
+			y0, y1 = 1900, 2100
+		}
+		for y := y0; y < y1; y++ {
 			scen = append(scen, scenario{synthSky{moonAnchor: anchor}, y})
 		}
 	}
